@@ -15,6 +15,8 @@ def boundaries(spec):
 def run(res, replay=None):
     # structural tie of the searches on the distribution function (_update, _cum, quantile, _get_absorption_time, t_max): translate the CURRENT source and re-check proofs/GenSearchEquiv.v
     import translate_step; (res.proof is not None) and translate_step.run(res.proof, pid=res.pid, tie='search')
+    # pinned reading of the marginal distributions (demes / loci: get_cov, cov, corr; mean / var / std / m2) and of the density pdf: re-check the CURRENT source against it and proofs/GenMarginalsEquiv.v
+    import translate_step; (res.proof is not None) and translate_step.run(res.proof, pid=res.pid, tie='marginals')
     # structural tie of the propagation loops (_accumulate, cdf) of phasegen/distributions.py: translate the CURRENT source and re-check proofs/GenLoopsEquiv.v
     import translate_step; (res.proof is not None) and translate_step.run(res.proof, pid=res.pid, tie='loops')
     rng = random.Random(res.seed)
